@@ -15,6 +15,11 @@ type Val interface{}
 
 type Tuple []Val
 
+type pendingCopy struct {
+	lv   *LVal
+	cell Term
+}
+
 type Closure struct {
 	Fn       *ssa.Function
 	Bindings []Val
@@ -160,6 +165,7 @@ type State struct {
 	steps  int
 	// copy-in/copy-out records for interior pointers materialised as cells
 	trail []string // human-readable branch trail
+	pendingCopies []pendingCopy // interior pointers materialised as cells, to be written back after the next call
 	frameBase *Snapshot // after a callback call: the heap the function's own frame is measured from
 	// private: references allocated on this path that have not escaped (never
 	// stored into non-private memory, never passed to a call). No callee can
@@ -167,6 +173,7 @@ type State struct {
 	private  map[string]bool
 	alias    map[string][]string // named constant -> private refs it mentions
 	contains map[string][]string // private container -> private refs stored in it
+	open     map[string]bool     // private container that may hold references to non-private objects
 }
 
 func (st *State) Fork() *State {
@@ -181,6 +188,7 @@ func (st *State) Fork() *State {
 	// identity and are resolved through the frame chain by function identity.
 	n.trail = append([]string(nil), st.trail...)
 	n.frameBase = st.frameBase
+	n.pendingCopies = append([]pendingCopy(nil), st.pendingCopies...)
 	n.private = make(map[string]bool, len(st.private))
 	for k := range st.private {
 		n.private[k] = true
@@ -192,6 +200,10 @@ func (st *State) Fork() *State {
 	n.contains = make(map[string][]string, len(st.contains))
 	for k, v := range st.contains {
 		n.contains[k] = v
+	}
+	n.open = make(map[string]bool, len(st.open))
+	for k := range st.open {
+		n.open[k] = true
 	}
 	return n
 }
@@ -231,6 +243,173 @@ func (st *State) refsIn(t string) []string {
 	return out
 }
 
+// mentionsForeign: may the stored value carry a reference to an object that is
+// not private to this path? (conservative: any symbol that is not a private
+// reference, a literal or a constructor counts)
+func (st *State) mentionsForeign(t string) bool {
+	toks := sexprTokens(t)
+	pos := 0
+	var walk func() bool // true: foreign
+	atomForeign := func(tok string) bool {
+		switch {
+		case st.private[tok]:
+			return false
+		case tok == "true" || tok == "false" || tok == "nil_any":
+			return false
+		case tok[0] >= '0' && tok[0] <= '9', tok[0] == '"':
+			return false
+		}
+		if rs := st.alias[tok]; len(rs) > 0 {
+			for _, r := range rs {
+				if !st.private[r] {
+					return true
+				}
+			}
+			return false
+		}
+		return true
+	}
+	skip := func() {
+		depth := 0
+		for pos < len(toks) {
+			tk := toks[pos]
+			pos++
+			if tk == "(" {
+				depth++
+			} else if tk == ")" {
+				depth--
+			}
+			if depth == 0 {
+				return
+			}
+		}
+	}
+	walk = func() bool {
+		if pos >= len(toks) {
+			return false
+		}
+		tk := toks[pos]
+		if tk != "(" {
+			pos++
+			return atomForeign(tk)
+		}
+		pos++ // (
+		if pos >= len(toks) {
+			return true
+		}
+		head := toks[pos]
+		pos++
+		foreign := false
+		switch {
+		case head == "mk_slice":
+			// only the array component is a reference; length and capacity are numbers
+			if walk() {
+				foreign = true
+			}
+			skip()
+			skip()
+		case strings.HasPrefix(head, "box_") || strings.HasPrefix(head, "mk_") || head == "ite":
+			for pos < len(toks) && toks[pos] != ")" {
+				if head == "ite" && !foreign && false {
+					break
+				}
+				if walk() {
+					foreign = true
+				}
+			}
+		case head == "-" || head == "+" || head == "*" || head == "str.++" || head == "str.len":
+			for pos < len(toks) && toks[pos] != ")" {
+				skip()
+			}
+		default:
+			foreign = true
+			for pos < len(toks) && toks[pos] != ")" {
+				skip()
+			}
+		}
+		if pos < len(toks) && toks[pos] == ")" {
+			pos++
+		}
+		return foreign
+	}
+	for pos < len(toks) {
+		if walk() {
+			return true
+		}
+	}
+	return false
+}
+
+func sexprTokens(t string) []string {
+	var out []string
+	i := 0
+	for i < len(t) {
+		c := t[i]
+		switch {
+		case c == ' ':
+			i++
+		case c == '(' || c == ')':
+			out = append(out, string(c))
+			i++
+		case c == '"':
+			j := i + 1
+			for j < len(t) && t[j] != '"' {
+				j++
+			}
+			if j < len(t) {
+				j++
+			}
+			out = append(out, t[i:j])
+			i = j
+		default:
+			j := i
+			for j < len(t) && t[j] != '(' && t[j] != ')' && t[j] != ' ' {
+				j++
+			}
+			out = append(out, t[i:j])
+			i = j
+		}
+	}
+	return out
+}
+
+// reachPrivate: if every reference mentioned by t is private and the objects
+// reachable from them hold no reference to non-private objects, the set of
+// those objects; otherwise ok is false.
+func (st *State) reachPrivate(t string) (refs []string, ok bool) {
+	if st.mentionsForeign(t) {
+		return nil, false
+	}
+	seen := map[string]bool{}
+	var visit func(r string) bool
+	visit = func(r string) bool {
+		if seen[r] {
+			return true
+		}
+		seen[r] = true
+		if !st.private[r] || st.open[r] {
+			return false
+		}
+		refs = append(refs, r)
+		for _, c := range st.contains[r] {
+			if !visit(c) {
+				return false
+			}
+		}
+		return true
+	}
+	start := st.refsIn(t)
+	if len(start) == 0 {
+		return nil, false
+	}
+	for _, r := range start {
+		if !visit(r) {
+			return nil, false
+		}
+	}
+	return refs, true
+}
+
 // escape marks every private reference mentioned by t (and, transitively,
 // everything stored in those objects) as reachable by other code.
 func (st *State) escape(t string) {
@@ -253,6 +432,12 @@ func (st *State) escapeRef(r string) {
 // reference root: into a private container it stays private, otherwise it escapes.
 func (st *State) storedInto(root string, v string) {
 	refs := st.refsIn(v)
+	if st.private[root] && st.mentionsForeign(v) {
+		if st.open == nil {
+			st.open = map[string]bool{}
+		}
+		st.open[root] = true
+	}
 	if len(refs) == 0 {
 		return
 	}
